@@ -17,6 +17,19 @@ RING_BUFFER_API(u32_ring, uint32_t)
 RING_BUFFER_ITER_API(u32_ring, uint32_t)
 RING_BUFFER(u32_ring, uint32_t)
 RING_BUFFER_ITER(u32_ring, uint32_t)
+/* ... and a ring of doubles (ty 64): element x travels as x + 0.5, so that an element type that is not an integer is seen as such */
+RING_BUFFER_API(f64_ring, double)
+RING_BUFFER_ITER_API(f64_ring, double)
+RING_BUFFER(f64_ring, double)
+RING_BUFFER_ITER(f64_ring, double)
+static double enc64(long long x) { return (double)x + 0.5; }
+static long long dec64(double d)
+{
+    if (d == 0.0) return 0;                       /* "zero when empty" */
+    double t = 2.0 * d;
+    long long k = (long long)t;
+    return ((double)k == t && (k & 1)) ? (k - 1) / 2 : -999;
+}
 
 const char *adapter_name = "ring";
 
@@ -24,6 +37,7 @@ static int ty = 0;
 static size_t cap = 0;
 static octet_ring r8;
 static u32_ring r32;
+static f64_ring r64;
 static void *block = NULL;
 
 static void project(Ev *ev, long long ret)
@@ -34,6 +48,10 @@ static void project(Ev *ev, long long ret)
         obs(ev, (long long)octet_ring_size(&r8));
         obs(ev, octet_ring_empty(&r8));
         obs(ev, octet_ring_full(&r8));
+    } else if (ty == 64) {
+        obs(ev, (long long)f64_ring_size(&r64));
+        obs(ev, f64_ring_empty(&r64));
+        obs(ev, f64_ring_full(&r64));
     } else {
         obs(ev, (long long)u32_ring_size(&r32));
         obs(ev, u32_ring_empty(&r32));
@@ -44,9 +62,9 @@ static void project(Ev *ev, long long ret)
         int at = ev->no;
         long long n = 0;
         obs(ev, 0);
-        if (ty == 8) octet_ring_iter(&it, &r8, m); else u32_ring_iter(&it, &r32, m);
+        if (ty == 8) octet_ring_iter(&it, &r8, m); else if (ty == 64) f64_ring_iter(&it, &r64, m); else u32_ring_iter(&it, &r32, m);
         while (!rb_iter_done(&it) && n <= (long long)cap + 2) {
-            obs(ev, ty == 8 ? (long long)octet_ring_inspect(&r8, &it) : (long long)u32_ring_inspect(&r32, &it));
+            obs(ev, ty == 8 ? (long long)octet_ring_inspect(&r8, &it) : ty == 64 ? dec64(f64_ring_inspect(&r64, &it)) : (long long)u32_ring_inspect(&r32, &it));
             rb_iter_advance(&it);
             n++;
         }
@@ -70,24 +88,28 @@ void adapter_exec(Ev *ev)
             block = xblock(cap);
             memset(block, 0xee, cap);
             octet_ring_init(&r8, block, cap);
+        } else if (ty == 64) {
+            block = xblock(cap * sizeof(double));
+            memset(block, 0xee, cap * sizeof(double));
+            f64_ring_init(&r64, block, cap);
         } else {
             block = xblock(cap * sizeof(uint32_t));
             memset(block, 0xee, cap * sizeof(uint32_t));
             u32_ring_init(&r32, block, cap);
         }
     } else if (ev_is(ev, "put")) {
-        if (ty == 8) octet_ring_put(&r8, (uint8_t)ev->a[0]); else u32_ring_put(&r32, (uint32_t)ev->a[0]);
+        if (ty == 8) octet_ring_put(&r8, (uint8_t)ev->a[0]); else if (ty == 64) f64_ring_put(&r64, enc64(ev->a[0])); else u32_ring_put(&r32, (uint32_t)ev->a[0]);
     } else if (ev_is(ev, "fill")) {
         for (long long i = 0; i < ev->a[0]; i++) {
             long long x = (ev->a[1] + i) % 251;
-            if (ty == 8) octet_ring_put(&r8, (uint8_t)x); else u32_ring_put(&r32, (uint32_t)x);
+            if (ty == 8) octet_ring_put(&r8, (uint8_t)x); else if (ty == 64) f64_ring_put(&r64, enc64(x)); else u32_ring_put(&r32, (uint32_t)x);
         }
     } else if (ev_is(ev, "get")) {
-        ret = ty == 8 ? (long long)octet_ring_get(&r8) : (long long)u32_ring_get(&r32);
+        ret = ty == 8 ? (long long)octet_ring_get(&r8) : ty == 64 ? dec64(f64_ring_get(&r64)) : (long long)u32_ring_get(&r32);
     } else if (ev_is(ev, "clear")) {
-        if (ty == 8) octet_ring_clear(&r8); else u32_ring_clear(&r32);
+        if (ty == 8) octet_ring_clear(&r8); else if (ty == 64) f64_ring_clear(&r64); else u32_ring_clear(&r32);
     } else if (ev_is(ev, "override")) {
-        if (ty == 8) octet_ring_override_if_full(&r8, ev->a[0] != 0); else u32_ring_override_if_full(&r32, ev->a[0] != 0);
+        if (ty == 8) octet_ring_override_if_full(&r8, ev->a[0] != 0); else if (ty == 64) f64_ring_override_if_full(&r64, ev->a[0] != 0); else u32_ring_override_if_full(&r32, ev->a[0] != 0);
     } else {
         fprintf(stderr, "ring: unknown op %s\n", ev->name);
         exit(2);
